@@ -17,6 +17,12 @@ from that record it knows the chains and rings it has built, and checks
                                   sets mixing rings and chains)
   subset-members-only-at-most-once  for arbitrary subsets only this and termination is claimed
 
+Sets whose chains came about through edits: a case may carry `edits`, a history of ['relate', a, b] / ['unrelate', a, b]
+calls (a precedes b) executed in that order on initially unlinked instances; the oracle replays the history on its own
+partner record and reads the chains and rings off that record (kind 'edited': whole set, the contract that fits what the
+record holds - chains only: full chain contract, one ring: ring contract, otherwise termination and at-most-once;
+kind 'edited-subset': an arbitrary subset, termination and at-most-once only).
+
 Not checked (the property text does not settle it; see ctx.note): the relative order of different chains
 in the result, and the direction in which a ring is walked.
 """
@@ -80,12 +86,67 @@ def _schema(variant):
     return m
 
 
+class SetupFailed(Exception):
+    """Building the links of a case was refused by the code under test (a matter of C02, not of sorting)."""
+
+
+def _edit_record(partner, verb, a, b):
+    """The oracle's own record of one edit; a precedes b.  Returns False when the edit is not applicable to the record."""
+    if verb == 'relate':
+        if a in partner[PHRASES[0]] or b in partner[PHRASES[1]]:
+            return False
+        partner[PHRASES[0]][a] = b
+        partner[PHRASES[1]][b] = a
+        return True
+    if partner[PHRASES[0]].get(a, None) != b or a not in partner[PHRASES[0]]:
+        return False
+    del partner[PHRASES[0]][a]
+    del partner[PHRASES[1]][b]
+    return True
+
+
+def arrangement_of(n, partner):
+    """(chains, rings) read off the partner record: a chain starts at a member nobody precedes and follows 'precedes'."""
+    chains, rings, seen = [], [], set()
+    for h in range(n):
+        if h not in partner[PHRASES[1]]:
+            ch = [h]
+            while ch[-1] in partner[PHRASES[0]]:
+                ch.append(partner[PHRASES[0]][ch[-1]])
+            chains.append(ch)
+            seen.update(ch)
+    for x in range(n):
+        if x not in seen:
+            rg = [x]
+            while partner[PHRASES[0]][rg[-1]] != x:
+                rg.append(partner[PHRASES[0]][rg[-1]])
+            rings.append(rg)
+            seen.update(rg)
+    return chains, rings
+
+
 def _build(case):
     """Returns (metamodel, instances by label, partner maps {phrase: {label: label}})."""
     n = case['n']
     m = _schema(case.get('schema', 0))
     inst = [m.new('N', Id=i + 1) for i in range(n)]
     partner = {PHRASES[0]: {}, PHRASES[1]: {}}
+    if 'edits' in case:
+        mode = case.get('relate', 0)
+        for k, (verb, a, b) in enumerate(case['edits']):
+            if not _edit_record(partner, verb, a, b):
+                raise ValueError('edit %d of the case is not applicable: %r' % (k, (verb, a, b)))
+            fn = xtuml.relate if verb == 'relate' else xtuml.unrelate
+            # the call is written from a's side or from b's side (mode 0: a's, 2: b's, 1 and 3: alternating)
+            from_b = (mode == 2) or (mode == 1 and k % 2 == 1) or (mode == 3 and k % 2 == 0)
+            try:
+                if from_b:
+                    fn(inst[b], inst[a], 1, PHRASES[1])
+                else:
+                    fn(inst[a], inst[b], 1, PHRASES[0])
+            except Exception as e:
+                raise SetupFailed('%s(%d, %d) as edit %d: %s: %s' % (verb, a, b, k, type(e).__name__, e))
+        return m, inst, partner
     pairs = []
     for ch in case.get('chains', []):
         for a, b in zip(ch, ch[1:]):
@@ -120,6 +181,20 @@ def evaluate(case):
     label = dict((id(x), i) for i, x in enumerate(inst))
     phrase = case['phrase']
     members = case['set']
+    kind = case['kind']
+    the_chains, the_rings = case.get('chains', []), case.get('rings', [])
+    if 'edits' in case:
+        the_chains, the_rings = arrangement_of(case['n'], partner)
+        if not members:
+            kind = 'empty'
+        elif kind == 'edited-subset' or sorted(members) != list(range(case['n'])):
+            kind = 'subset'
+        elif not the_rings:
+            kind = 'chains'
+        elif not the_chains and len(the_rings) == 1:
+            kind = 'ring'
+        else:
+            kind = 'subset'
     if case.get('via_select') and members == list(range(case['n'])):
         qs = m.select_many('N')
     else:
@@ -133,7 +208,6 @@ def evaluate(case):
     if not finished:
         return [dict(clause='bounded-time', observed='no result after %.1f s' % TIME_LIMIT_S, required='terminates')]
     got = [label.get(id(x), repr(x)) for x in res]
-    kind = case['kind']
 
     if kind == 'empty':
         if got:
@@ -151,7 +225,7 @@ def evaluate(case):
         return out
 
     if kind == 'chains':
-        for ch in case['chains']:
+        for ch in the_chains:
             want = list(ch) if phrase == PHRASES[1] else list(reversed(ch))
             # the head has no partner across the phrase sorted on (own record)
             assert want[0] not in partner[phrase]
@@ -171,7 +245,7 @@ def evaluate(case):
                 ok = False
         if not ok:
             out.append(dict(clause='ring-once-around-from-first', observed=got,
-                            required='starts at %r and follows the ring %r once around' % (members[0], case['rings'][0])))
+                            required='starts at %r and follows the ring %r once around' % (members[0], the_rings[0])))
     return out
 
 
@@ -216,7 +290,12 @@ def _run(ctx, cases, sharded=True):
             ctx.exhausted = False
             return
         ctx.case(key=case, nontrivial=len(case['set']) >= 2)
-        for f in evaluate(case):
+        try:
+            found = evaluate(case)
+        except SetupFailed as e:
+            ctx.note('case left out, its links could not be built (C02): %s' % e)
+            continue
+        for f in found:
             ctx.check(False, clause=f['clause'], input=case, observed=f['observed'], required=f['required'])
             if f['clause'] == 'bounded-time':
                 timeouts += 1
@@ -308,6 +387,169 @@ def random_cases(rng, count, nlo, nhi):
                    relate=rng.randint(0, 3), via_select=(how == 0))
 
 
+# ------------------------------------------------------------------ sets whose chains came about through edits
+
+def _valid_edits(n, partner, self_links):
+    for a in range(n):
+        if a in partner[PHRASES[0]]:
+            yield ['unrelate', a, partner[PHRASES[0]][a]]
+        else:
+            for b in [x for x in range(n) if x != a] + [a]:
+                if b not in partner[PHRASES[1]] and (self_links or a != b):
+                    yield ['relate', a, b]
+
+
+def edit_histories(n, length, canonical=True):
+    """Every history of 1..length applicable edits on n unlinked instances (relate a,b: a has no successor and b no
+    predecessor yet, a == b allowed; unrelate of a linked pair); canonical: up to renaming of instances (an instance is
+    first mentioned only after all instances with smaller labels)."""
+    partner = {PHRASES[0]: {}, PHRASES[1]: {}}
+    edits = []
+
+    def rec(used):
+        if edits:
+            yield list(edits)
+        if len(edits) == length:
+            return
+        for e in list(_valid_edits(n, partner, True)):
+            u = used
+            if canonical:
+                if e[1] > u + 1:
+                    continue
+                u = max(u, e[1])
+                if e[2] > u + 1:
+                    continue
+                u = max(u, e[2])
+            _edit_record(partner, *e)
+            edits.append(e)
+            for r in rec(u):
+                yield r
+            edits.pop()
+            _edit_record(partner, 'unrelate' if e[0] == 'relate' else 'relate', e[1], e[2])
+    return rec(-1)
+
+
+def closed_arrangements(n):
+    """Every arrangement of n labels into chains and rings (each chain of an arrangement open or closed)."""
+    for arr in arrangements(n):
+        for closed in itertools.product((False, True), repeat=len(arr)):
+            if any(c[0] != min(c) for c, z in zip(arr, closed) if z):
+                continue
+            yield [c for c, z in zip(arr, closed) if not z], [c for c, z in zip(arr, closed) if z]
+
+
+def _pairs(chains, rings):
+    out = []
+    for ch in chains:
+        out += list(zip(ch, ch[1:]))
+    for rg in rings:
+        out += [(rg[i], rg[(i + 1) % len(rg)]) for i in range(len(rg))]
+    return out
+
+
+def rearrangements(n, stride=1, offset=0):
+    """Edit histories that build one arrangement A (chains and rings) with relate calls and turn it into another one, B (chains
+    only, or a single ring), by unrelating the links B does not have and relating the ones A did not have: splits, joins,
+    moved heads and tails, opened and closed rings, dismantled chains.  Every ordered pair (A, B), A != B."""
+    targets = [(c, r) for c, r in closed_arrangements(n) if not r or (not c and len(r) == 1)]
+    k = -1
+    for ac, ar in closed_arrangements(n):
+        pa = _pairs(ac, ar)
+        for bc, br in targets:
+            pb = _pairs(bc, br)
+            if set(pa) == set(pb):
+                continue
+            k += 1
+            if k % stride != offset:
+                continue
+            removed = [p for p in pa if p not in pb]
+            added = [p for p in pb if p not in pa]
+            if k % 2:
+                removed.reverse()
+            if k % 4 >= 2:
+                added.reverse()
+            edits = [['relate', a, b] for a, b in (pa if k % 3 else pa[::-1])]
+            if k % 5 == 0 and removed and added:
+                # interleaved: the links are taken away one by one, every new link as soon as the record allows it
+                partner = {PHRASES[0]: {}, PHRASES[1]: {}}
+                for _, a, b in edits:
+                    _edit_record(partner, 'relate', a, b)
+                todo = list(added)
+                for a, b in removed:
+                    edits.append(['unrelate', a, b])
+                    _edit_record(partner, 'unrelate', a, b)
+                    for x, y in list(todo):
+                        if _edit_record(partner, 'relate', x, y):
+                            edits.append(['relate', x, y])
+                            todo.remove((x, y))
+                assert not todo
+            else:
+                edits += [['unrelate', a, b] for a, b in removed] + [['relate', a, b] for a, b in added]
+            yield k, edits
+
+
+def edited_cases(quick):
+    k = 0
+    # 1. every short edit history
+    for n, length in ((2, 6), (3, 5 if quick else 6), (4, 4 if quick else 5)):
+        for edits in edit_histories(n, length):
+            k += 1
+            for order in set_orders(n, k):
+                for phrase in PHRASES:
+                    yield dict(kind='edited', n=n, edits=edits, set=order, phrase=phrase, schema=k % 4, relate=(k // 4) % 4,
+                               via_select=bool(k % 2))
+            if n <= 3 and any(e[0] == 'unrelate' for e in edits):
+                for mask in range(1, 2 ** n - 1):
+                    yield dict(kind='edited-subset', n=n, edits=edits, set=[i for i in range(n) if mask >> i & 1], phrase=PHRASES[k % 2],
+                               schema=k % 4, relate=(k // 4) % 4)
+    # 2. every arrangement turned into every other one
+    for n, stride in ((2, 1), (3, 1), (4, 1), (5, 48 if quick else 4)):
+        for j, edits in rearrangements(n, stride, 3 % stride):
+            k += 1
+            for order in set_orders(n, j):
+                for phrase in PHRASES:
+                    yield dict(kind='edited', n=n, edits=edits, set=order, phrase=phrase, schema=j % 4, relate=(j // 4) % 4,
+                               via_select=bool(j % 2))
+
+
+def random_edited_cases(rng, count, nlo, nhi):
+    for k in range(count):
+        n = rng.randint(nlo, nhi)
+        partner = {PHRASES[0]: {}, PHRASES[1]: {}}
+        edits = []
+        p_unrelate = rng.choice((0.2, 0.35, 0.5))
+        for _ in range(rng.randint(n, 4 * n)):
+            linked = sorted(partner[PHRASES[0]])
+            if linked and rng.random() < p_unrelate:
+                a = rng.choice(linked)
+                e = ['unrelate', a, partner[PHRASES[0]][a]]
+            else:
+                free_a = [a for a in range(n) if a not in partner[PHRASES[0]]]
+                free_b = [b for b in range(n) if b not in partner[PHRASES[1]]]
+                if not free_a or not free_b:
+                    continue
+                a = rng.choice(free_a)
+                cands = [b for b in free_b if b != a] or free_b
+                e = ['relate', a, rng.choice(cands)]
+            _edit_record(partner, *e)
+            edits.append(e)
+        if rng.random() < 0.7:
+            # open the rings, so that the set is made of whole chains and the full contract applies
+            chains, rings = arrangement_of(n, partner)
+            for rg in rings:
+                e = ['unrelate', rg[-1], rg[0]]
+                _edit_record(partner, *e)
+                edits.append(e)
+        order = list(range(n))
+        how = rng.randint(0, 2)
+        if how == 1:
+            order.reverse()
+        elif how == 2:
+            rng.shuffle(order)
+        yield dict(kind='edited', n=n, edits=edits, set=order, phrase=PHRASES[k % 2], schema=k % 4, relate=rng.randint(0, 3),
+                   via_select=(how == 0))
+
+
 # ------------------------------------------------------------------ items
 
 _NOTE = ('not checked: order of different chains relative to each other, and the direction in which a closed ring '
@@ -318,7 +560,7 @@ _NOTE = ('not checked: order of different chains relative to each other, and the
       bound='every arrangement of n labelled instances (label = creation order) into ordered chains, n<=6 quick / n<=7 '
             'thorough (1+3+13+73+501+4051[+37633] arrangements) x 2-3 set orders x both phrases x 4 schema variants / '
             '4 relate orders (rotated); plus the empty set; non-trivial = set of >= 2 members',
-      shards=12, weight=3)
+      shards=4, weight=3)
 def chains(ctx):
     if ctx.shard == 0:
         ctx.note(_NOTE)
@@ -328,7 +570,7 @@ def chains(ctx):
 @item('rings', stands_in_for=['xtuml.meta.sort_reflexive'],
       bound='a single closed ring of every length 1..7 (quick) / 1..8 (thorough), every cyclic order of the labelled '
             'instances, every rotation of the set (so every member is the first member once; 3 rotations when n>6), both phrases',
-      shards=2, weight=1)
+      shards=1, weight=1)
 def rings(ctx):
     _run(ctx, ring_cases(7 if ctx.quick else 8))
 
@@ -337,7 +579,7 @@ def rings(ctx):
       bound='n<=5 (quick) / n<=6 (thorough) instances arranged into chains and rings (every arrangement, every choice of '
             'closed chains), every non-empty subset as the set (excluding the whole-chain sets and single rings covered '
             'by the other items), both phrases; only termination within %.0f s and "members only, each at most once"' % TIME_LIMIT_S,
-      shards=8, weight=2)
+      shards=4, weight=2)
 def subsets(ctx):
     _run(ctx, subset_cases(5 if ctx.quick else 6))
 
@@ -345,13 +587,38 @@ def subsets(ctx):
 @item('random-larger', stands_in_for=['xtuml.meta.sort_reflexive'],
       bound='random arrangements of 8..60 (quick, 400 sets) / 8..200 (thorough, 4000 sets) instances into chains or one ring, '
             'random set order, both phrases; sampled, not exhaustive',
-      shards=2, weight=1)
+      shards=1, weight=1)
 def random_larger(ctx):
     count = 400 if ctx.quick else 4000
     hi = 60 if ctx.quick else 200
     # every shard draws its own sample from ctx.rng (seeded with the shard number)
     _run(ctx, random_cases(ctx.rng, count // ctx.nshards, 8, hi), sharded=False)
     ctx.exhausted = False   # a sample, never the whole space
+
+
+@item('edited-chains', stands_in_for=['xtuml.meta.sort_reflexive'],
+      bound='sets whose chains came about through relate AND unrelate calls: (1) every history of applicable edits (relate of two '
+            'free ends incl. an instance with itself, unrelate of a linked pair; up to renaming of instances) of length <= 6 on 2, '
+            '<= 5 (thorough 6) on 3 and <= 4 (thorough 5) on 4 instances, the whole set sorted afterwards in 2-3 set orders on both '
+            'phrases, for n <= 3 also every proper subset (termination only); (2) every arrangement of n <= 4 instances into chains and '
+            'rings built by relate calls and then turned into every other arrangement into chains (or into one ring) by unrelating and '
+            'relating the differing links (splits, joins, head moved to the tail, rings opened/closed, chains dismantled; in 3 edit '
+            'orders, every 5th interleaved), n = 5: every 48th pair (thorough: every 4th); calls written from either side (4 modes, rotated), '
+            '4 schema variants; the contract is chosen by what the oracle record holds after the history (chains / one ring / mixed)',
+      shards=5, weight=3)
+def edited_chains(ctx):
+    if ctx.shard == 0:
+        ctx.note(_NOTE)
+    _run(ctx, edited_cases(ctx.quick))
+
+
+@item('random-edited', stands_in_for=['xtuml.meta.sort_reflexive'],
+      bound='random edit histories (n..4n applicable relate/unrelate calls, 20-50% unrelate) on 5..16 (quick, 600 sets) / 5..40 (thorough, '
+            '6000 sets) instances, rings opened at the end in 70% of the histories, random set order, both phrases; sampled',
+      shards=1, weight=1)
+def random_edited(ctx):
+    _run(ctx, random_edited_cases(ctx.rng, 600 if ctx.quick else 6000, 5, 16 if ctx.quick else 40), sharded=False)
+    ctx.exhausted = False
 
 
 def replay(item_name, input):
